@@ -291,6 +291,12 @@ def const_value(op):
             else:
                 out.append(("opaque", str(x)))
         return ("array", tuple(out))
+    if "variant" in v:
+        inner = v.get("0")
+        iv = None
+        if isinstance(inner, dict):
+            iv = bytes.fromhex(inner["bytes"]) if "bytes" in inner else inner.get("int")
+        return ("variant", v["variant"], iv)
     return ("opaque", str(v))
 
 
